@@ -157,13 +157,17 @@ Definition exact_result (k : acase) : option exact :=
 Definition adj_exact (x : exact) : Z := mag_frac (xnum x) (xden x) + xexp x - 1.
 
 (* an exponent-limit error is legitimate only when some exponent really leaves +/-MaxExponent: the
-   gap between the operands (Add/Sub), or the exponent or adjusted exponent of the exact result *)
+   gap between the operands (Add/Sub), the exponent or adjusted exponent of the exact result, or the
+   adjusted exponent of the result rounded to Precision digits (an all-nines carry at the very top:
+   9.99..E+100000 rounds to 1.0E+100001, which the package cannot represent) *)
 Definition syslimit_excuse (k : acase) (x : exact) : bool :=
   let gap := Z.abs (exp (a_x k) - exp (eff_y k)) in
   (match a_op k with OAdd | OSub => gap >? MaxExponent | _ => false end)
   || (xexp x <? MinExponent) || (xexp x >? MaxExponent)
   || (negb (xnum x =? 0) && ((adj_exact x >? MaxExponent) || (adj_exact x <? MinExponent)
-                             || (ndigits (xnum x) - prec (a_ctx k) >? MaxExponent))).
+                             || (ndigits (xnum x) - prec (a_ctx k) >? MaxExponent)
+                             || ((adj_exact x =? MaxExponent) && (1 <=? prec (a_ctx k))
+                                 && s_overflow (spec_round_nz (prec (a_ctx k)) MinExponent MaxExponent (rounding (a_ctx k)) x)))).
 
 Definition oracle_c01 (k : acase) (o : obs) : list Z :=
   let c := a_ctx k in
